@@ -114,7 +114,8 @@ def layout():
                 elif choice < 0.6:
                     sep = rnd.choice([' ', '  ', '\t', ' \t '])
                 elif choice < 0.8:
-                    sep = rnd.choice(['\n', '\n\n  ', ' # a comment "with" {marks}\n', ' # form\x0cfeed hue 7 in a comment\n'])
+                    sep = rnd.choice(['\n', '\n\n  ', ' # a comment "with" {marks}\n', ' # form\x0cfeed hue 7 in a comment\n',
+                                      '\r\n', '\r\n\r\n\t', ' # a comment before a CR LF line end\r\n'])
                 else:
                     sep = ' '
                 out.append(sep)
@@ -128,13 +129,17 @@ def layout():
 # (c) string literals: any characters other than a double quote or a line break
 def strings():
     n = 0
-    alpha = ['a', '#', '\\', '{', ' ', "'", ']', '-', '\x0c', '\u2028', '\x85']     # incl. characters str.splitlines() would split at
+    ESCQ = '\\"'          # an escaped double quote inside the literal: stands for the character "
+    alpha = ['a', '#', '\\', '{', ' ', "'", ']', '-', '\x0c', '\u2028', '\x85', ESCQ]     # incl. characters str.splitlines() would split at
     L = 3 if tier == 'quick' else 4
     for k in range(0, L + 1):
         for t in itertools.product(alpha, repeat=k):
-            s = ''.join(t)
+            if any(t[i] == '\\' and t[i + 1] == ESCQ for i in range(len(t) - 1)) or (t and t[-1] == '\\'):
+                continue        # a lone backslash directly before a quote: which of the two escapes is not documented
+            written = ''.join(t)
+            s = ''.join('"' if x == ESCQ else x for x in t)
             n += 1
-            got = toks('define x "%s" on all' % s)
+            got = toks('define x "%s" on all' % written)
             want_tail = [('ON', ''), ('ALL', ''), ('EOF', '')]
             if got[:2] != [('DEFINE', ''), ('NAME', 'x')] or got[3:] != want_tail or got[2][0] != 'LITERAL_STRING' or got[2][1] != s:
                 report('bounded:string-literal-content', 'literal %r lexed as %r' % (s, got), s)
